@@ -1,22 +1,22 @@
 SPECIFICATION Spec
 CONSTANTS
-  Proc = {p1}
-  BackupProcs = {p1}
-  PruneProcs = {p1}
+  Proc = {p1, p2}
+  BackupProcs = {p1, p2}
+  PruneProcs = {}
   Version = {"v1", "v2"}
   Needs <- NeedsB
-  KD = 1
-  MaxTime = 1
+  KD = 2
+  MaxTime = 3
   MaxPacks = 4
   MaxCmds = 4
-  Concurrent = FALSE
+  Concurrent = TRUE
   AllowInstant = FALSE
   AppendOnly = FALSE
-  AllowDamage = TRUE
-  AllowCrash = TRUE
+  AllowDamage = FALSE
+  AllowCrash = FALSE
   AllowEarly = FALSE
-  TickInPrune = TRUE
+  TickInPrune = FALSE
   UntypedDedup = FALSE
 VIEW View
-INVARIANTS TypeOK Rebuilt
+INVARIANTS TypeOK AllReadable
 CHECK_DEADLOCK FALSE
